@@ -338,7 +338,9 @@ def truncate_basename(basename, iso_level, is_dir):
 
     # Finally, ISO9660 requires only uppercase letters, 0-9, and underscore.
     # Translate any non-compliant characters to underscore and return that.
-    return re.sub('[^A-Z0-9_]{1}', r'_', valid_base)
+    # Uppercasing can make the string longer (e.g. the German sharp s becomes
+    # 'SS'), so truncate again to stay within the allowed length.
+    return re.sub('[^A-Z0-9_]{1}', r'_', valid_base)[:maxlen]
 
 
 def mangle_file_for_iso9660(orig, iso_level):
@@ -405,7 +407,7 @@ def mangle_file_for_iso9660(orig, iso_level):
         else:
             tmpext = ext.upper()
             valid_ext, numsub = re.subn('[^A-Z0-9_]{1}', r'_', tmpext)
-            if numsub > 0:
+            if numsub > 0 or len(tmpext) > 3:
                 valid_ext = ''
                 basename = orig
 
